@@ -1078,6 +1078,24 @@ func (g *gen) value() string {
 	return g.text(valueAlphabet, 1, 14)
 }
 
+// staysInSandbox: a join that climbs above the sandbox root would show that /S is one level deep while the
+// real root is two levels deep (only the generator uses Go's filepath here, to discard such cases)
+func staysInSandbox(args []string) bool {
+	j := filepath.Join(args...)
+	if !filepath.IsAbs(j) {
+		j = filepath.Join("/S/"+projRel, j)
+	} else if j != "/S" && !strings.HasPrefix(j, "/S/") {
+		// absolute and never inside the sandbox: purely lexical, the same on both sides, unless it passed through /S
+		for _, a := range args {
+			if strings.HasPrefix(a, "/S") {
+				return false
+			}
+		}
+		return true
+	}
+	return j == "/S" || strings.HasPrefix(j, "/S/")
+}
+
 type execSample struct {
 	cmd, stdout string
 	status      int
@@ -1133,7 +1151,7 @@ func (g *gen) c13Random() *tcase {
 				d.args = append(d.args, g.pick([]string{"a", "..", "b", ".", "", "c/d", "/x", "e/", "//f", "../..", "/S/" + homeRel}))
 			}
 			// never climb above the sandbox root: there /S (one level) and the real root (two levels) differ
-			if g.chance(0.2) || strings.Count(strings.Join(d.args, "/"), "..") > 3 {
+			if g.chance(0.2) || !staysInSandbox(d.args) {
 				d.args = []string{"a", "..", "b"}
 			}
 		default:
